@@ -19,7 +19,9 @@ import (
 
 func triColor(salt uint64) func(t *model3d.Triangle) [3]float64 {
 	return func(t *model3d.Triangle) [3]float64 {
-		h := choice.Derive(salt, fmt.Sprint(*t))
+		// a function of the numeric vertex values: faces whose vertices are == get
+		// the same colour even when the sign of a zero differs
+		h := choice.Derive(salt, fmt.Sprint(t[0].X+0, t[0].Y+0, t[0].Z+0, t[1].X+0, t[1].Y+0, t[1].Z+0, t[2].X+0, t[2].Y+0, t[2].Z+0))
 		// few distinct colours so that materials are shared between faces
 		return [3]float64{float64(h%4) / 4, float64((h>>8)%3) / 2, float64((h>>16)%2) * 0.625}
 	}
@@ -103,7 +105,7 @@ func runOBJ(src *choice.Source, st *Stats) (fs []Finding) {
 	}
 
 	vcf := func(c model3d.Coord3D) [3]float64 {
-		h := choice.Derive(salt, fmt.Sprint(c))
+		h := choice.Derive(salt, fmt.Sprint(c.X+0, c.Y+0, c.Z+0))
 		return [3]float64{float64(h%256) / 255, float64((h>>8)%256) / 255, float64((h>>16)%256) / 255}
 	}
 	vo := model3d.BuildVertexColorOBJ(tris, vcf)
